@@ -78,6 +78,10 @@ func directVerify(kp keyPair, alg uint8, data, sig []byte) string {
 		}
 		return "sig"
 	case *ecdsa.PublicKey:
+		// r | s, each exactly as wide as the curve (RFC 6605, section 4)
+		if len(sig) != 2*((pub.Curve.Params().BitSize+7)/8) {
+			return "sig"
+		}
 		r := new(big.Int).SetBytes(sig[:len(sig)/2])
 		s := new(big.Int).SetBytes(sig[len(sig)/2:])
 		if ecdsa.Verify(pub, hashed, r, s) {
@@ -478,7 +482,7 @@ func receive(buf []byte, fallback *dns.SIG, k *dns.KEY) (verdict string, used *d
 		}
 	}
 	t0 = uint32(time.Now().Unix())
-	verdict = Protect(func() string { return errClass(used.Verify(k, buf)) })
+	verdict = verifyClass(used, k, buf)
 	t1 = uint32(time.Now().Unix())
 	return
 }
@@ -877,7 +881,7 @@ func oracleMessage(r *Rng, m *dns.Msg, kp keyPair, others []keyPair, mode int) [
 			continue
 		}
 		// what receive does, without unpacking a second time
-		got := Protect(func() string { return errClass(usig.Verify(kp.key, mut)) })
+		got := verifyClass(usig, kp.key, mut)
 		st["bitflips_checked"]++
 		if sigHeader && got != "panic" {
 			if got == "ok:" {
@@ -903,7 +907,7 @@ func oracleMessage(r *Rng, m *dns.Msg, kp keyPair, others []keyPair, mode int) [
 		if mode == modeLight && n > 14 && n+40 < len(out) && (n < rs.rr.start-2 || n > rs.rr.start+2) && r.Intn(len(out)/32+1) != 0 {
 			continue
 		}
-		got := Protect(func() string { return errClass(s.Verify(kp.key, out[:n])) })
+		got := verifyClass(s, kp.key, out[:n])
 		st["truncations_checked"]++
 		if got == "ok:" || got == "panic" {
 			in2 := in
@@ -951,7 +955,7 @@ func oracleMalformed(r *Rng, kp keyPair, seed []byte, emit bool) {
 	now := uint32(time.Now().Unix())
 	s := newSig(kp, now-3000, now+3000)
 	try := func(b []byte) {
-		got := Protect(func() string { return errClass(s.Verify(kp.key, b)) })
+		got := verifyClass(s, kp.key, b)
 		st["malformed_checked"]++
 		// Verify assumes rr was unpacked from buf; here it is not, so only the
 		// absence of a panic is demanded (acceptance is judged in oracleMessage,
@@ -1083,6 +1087,13 @@ func runC18(r *Rng, tier string, n int) {
 	oracleSizes(r, keys, tier)
 	// (1c) many goroutines signing and verifying at once
 	oracleConcurrent(r, keys, tier)
+	// (1e) Verify observed from the hash it writes to; one buffer verified by many goroutines
+	oracleObserved(r, keys)
+	oracleSharedBuffer(r, keys, tier)
+	// (1f) signer name against KEY owner name: every octet value, Unicode relatives of the ASCII letters
+	oracleNames(r, keys)
+	// (1g) the length of the signature field
+	oracleSigLens(r, keys)
 	// (1d) KEY objects that change between calls; the window at its exact bounds
 	oracleKeyChange(r, keys)
 	oracleWindowExact(r, keys)
@@ -1181,5 +1192,6 @@ func runC18(r *Rng, tier string, n int) {
 	}
 	_ = base64.StdEncoding
 	flushBig()
+	flushRO()
 	Stat(st)
 }
